@@ -27,6 +27,7 @@ from __future__ import annotations
 
 import ast
 import contextlib
+import importlib
 import inspect
 import io
 import sys
@@ -1295,6 +1296,56 @@ def scn_mass_invariant(d, rank, how):
     return scn
 
 
+def ob_mass_invariant_adaptor(rank):
+    """the same representation invariant after the REAL MassMatrixAdaptor changed the mass matrix (every update of a 40-call adaptation,
+    every estimator option): operator.inverse_mass_matrix ≡ (operator.mass_matrix)⁻¹ and operator.mass_matrix is the adaptor's matrix"""
+    def body():
+        tt = _tt()
+        am = importlib.import_module("torchtree.inference.hmc.adaptation")
+        from torchtree.inference.hmc.integrator import LeapfrogIntegrator
+        n_updates = 0
+        for opts in ({}, {"variance_window": 1}, {"swap_every": 15}, {"regularize": False}):
+            g = torch.Generator().manual_seed(11)
+            d = 3
+            params = [tt["Parameter"]("x", torch.zeros(d, dtype=torch.float64))]
+            m0 = torch.ones(d, dtype=torch.float64) if rank == "diag" else torch.eye(d, dtype=torch.float64)
+            mass = tt["Parameter"]("mass", m0.clone())
+            kw = dict(opts)
+            reg = kw.pop("regularize", True)
+            adaptor = am.MassMatrixAdaptor("mma", params, mass, reg, update_frequency=10, **kw)
+            op = tt["op_mod"].HMCOperator("hmc", (lambda: torch.tensor(0.0)), params, LeapfrogIntegrator("lf", 2, 0.1), mass, 1.0, 0.8, [adaptor])
+            last = mass.tensor.clone()
+            scale = torch.tensor([0.3, 1.0, 4.0], dtype=torch.float64)
+            for it in range(1, 41):
+                params[0].tensor = torch.randn(d, generator=g, dtype=torch.float64) * scale
+                op.tune(torch.tensor(0.9, dtype=torch.float64), it, True)
+                M = op.mass_matrix
+                W = op.inverse_mass_matrix
+                if not torch.equal(M, mass.tensor):
+                    raise Refuted("operator.mass_matrix is not the adaptor's current matrix at call %d" % it, witness={"rank": rank, "options": opts, "call": it}, confirmed=True)
+                want = 1.0 / M if rank == "diag" else torch.inverse(M)
+                if tuple(W.shape) != tuple(want.shape) or not torch.allclose(W, want, rtol=1e-9, atol=1e-12):
+                    raise Refuted("after the real MassMatrixAdaptor.learn (call %d, options %s) the %s mass matrix is %s but the operator's inverse mass matrix is %s (stale)"
+                                  % (it, opts, rank, M.tolist(), W.tolist()), witness={"rank": rank, "options": opts, "call": it},
+                                  replay={"kind": "custom", "contract": "C16", "func": "replay_mass_invariant_adaptor", "args": {"rank": rank}}, confirmed=True)
+                if not torch.equal(M, last):
+                    n_updates += 1
+                    last = M.clone()
+        if n_updates == 0:
+            raise Undecided("the adaptor never changed the mass matrix: vacuous")
+        return {"backend": "heap", "cases": n_updates, "statement": "%d mass-matrix updates by the real adaptor (%s): the operator's inverse is refreshed every time" % (n_updates, rank)}
+    return Ob("C16.hastings.mass_invariant.adaptor[%s]" % rank, "B", body,
+              clause="the kinetic energy uses the inverse of the mass matrix the momentum is drawn with (after the mass-matrix adaptor ran)", funcs=FUNCS)
+
+
+def replay_mass_invariant_adaptor(args):
+    try:
+        ob_mass_invariant_adaptor(args["rank"]).fn()
+    except Refuted as e:
+        return False, e.detail
+    return True, "held"
+
+
 def scn_mcmc(d, sizes, rank, steps, plan):
     """one iteration of the REAL MCMC.run with the HMC operator as the only operator; `torch.rand` in the namespace of
     torchtree.inference.mcmc.mcmc returns a symbolic u∈(0,1).  Claims: accepted ⇔ u < min(1, exp(−(H1−H0))) with
@@ -1583,6 +1634,8 @@ def obligations(tier, seed):
             for how in ("init", "assign", "inplace", "load_state"):
                 add("C16.hastings.mass_invariant[d=%d,%s,%s]" % (d, rank, how), "V", "scn_mass_invariant", (d, rank, how),
                     "the kinetic energy uses the inverse of the mass matrix the momentum is drawn with", d)
+    for rank in ranks:
+        obs.append(ob_mass_invariant_adaptor(rank))
     # ---- hastings
     for d in (1, 2, 3):
         for rank in ranks:
